@@ -16,13 +16,17 @@ VALS = ["1", "-7", "9007199254740993", "9223372036854775807", "1.5", "-0.25", "2
         "[]", "{}", "[1, 2, 3]", "[[1], [2, [3]]]", "{'a': 1}", "{'a': [1, {'b': 2}]}", "abs", "toStr"]
 
 
+DICT_KEYS = ['a', 'b', 'x', 'y', 'z', 'k\x7f', '\x01', 'q\x1fr', '力', 'é', '\U000e0001', 't\tb', 'sl/ash', 'u\u2028']
+
+
 def gen_value(r, depth=0):
     k = r.random()
     if depth > 2 or k < 0.45:
         return r.choice(VALS)
     if k < 0.7:
         return "[" + ", ".join(gen_value(r, depth + 1) for _ in range(r.randint(0, 3))) + "]"
-    return "{" + ", ".join(f"'{r.choice('abcxyz')}{i}': {gen_value(r, depth + 1)}" for i in range(r.randint(0, 3))) + "}"
+    # (keys are arbitrary strings: DEL, C0 controls, characters JSON escapes differently from Go's own quoting)
+    return "{" + ", ".join(f"'{r.choice(DICT_KEYS)}{i}': {gen_value(r, depth + 1)}" for i in range(r.randint(0, 3))) + "}"
 
 
 def gen_prefix(r):
